@@ -21,7 +21,9 @@
 
 #include "vf/vf.h"
 
-#define VF_RB_IOVN	6
+#ifndef VF_RB_IOVN
+#define VF_RB_IOVN	6	/* table entries of the harness ring (jobs may state a smaller table) */
+#endif
 #ifndef VF_RB_MAXSIZE
 #define VF_RB_MAXSIZE	(((size_t)1) << 40)	/* ring sizes of the harnesses (no wrap of 5 * mbs) */
 #endif
